@@ -1010,7 +1010,7 @@ def c04_history(model, meta):
                 cached = {}
                 for pid_, obj_ in psutil._pmap.items():
                     ticks = [t for (o, _p, t) in handles if o is obj_]
-                    if ticks:
+                    if ticks and pid_ not in pending_reused:      # (a PID reported recycled is due to be replaced)
                         cached[pid_] = (obj_, ticks[0])
                     if id(obj_) in stale and pid_ in consumed_while_held:
                         # recorded finding C04-older-iterator-republishes: the verdict was recorded, a newer pass used it
